@@ -41,6 +41,6 @@ Inv ==
   /\ LET r == ToSketch(u) IN
      /\ r.lgk = glg /\ Matrix(r) = gm /\ r.c = CountBits(gm)
      /\ CountOK(r) /\ OffsetOK(r) /\ FicSound(r) /\ ShapeOK(r)
-     /\ (r.c > 0 => r.merged)
+     /\ r.merged
   /\ \A s \in Cat : CountOK(s) /\ OffsetOK(s) /\ ShapeOK(s)
 ===============================================================================
